@@ -7,15 +7,21 @@ pub mod c01;
 pub mod c02;
 pub mod c03;
 pub mod c04;
+pub mod c05;
 pub mod c06;
 pub mod c07;
 pub mod c08;
+pub mod c09;
 pub mod c10;
 pub mod c11;
 pub mod c12;
 pub mod c13;
 pub mod groupcorpus;
 pub mod c14;
+pub mod c15;
+pub mod c16;
+pub mod c17;
+pub mod three_d;
 pub mod c18;
 pub mod c19;
 pub mod c20;
@@ -26,14 +32,19 @@ pub fn run(cfg: &Cfg) -> Option<Report> {
         "C02" => Some(c02::run(cfg)),
         "C03" => Some(c03::run(cfg)),
         "C04" => Some(c04::run(cfg)),
+        "C05" => Some(c05::run(cfg)),
         "C06" => Some(c06::run(cfg)),
         "C07" => Some(c07::run(cfg)),
         "C08" => Some(c08::run(cfg)),
+        "C09" => Some(c09::run(cfg)),
         "C10" => Some(c10::run(cfg)),
         "C11" => Some(c11::run(cfg)),
         "C12" => Some(c12::run(cfg)),
         "C13" => Some(c13::run(cfg)),
         "C14" => Some(c14::run(cfg)),
+        "C15" => Some(c15::run(cfg)),
+        "C16" => Some(c16::run(cfg)),
+        "C17" => Some(c17::run(cfg)),
         "C18" => Some(c18::run(cfg)),
         "C19" => Some(c19::run(cfg)),
         "C20" => Some(c20::run(cfg)),
@@ -52,14 +63,19 @@ pub fn replay(cfg: &Cfg, v: &Value, path: &str) -> i32 {
         "C02" => c02::replay(&mut ctx, &input),
         "C03" => c03::replay(&mut ctx, &input),
         "C04" => c04::replay(&mut ctx, &input),
+        "C05" => c05::replay(&mut ctx, &input),
         "C06" => c06::replay(&mut ctx, &input),
         "C07" => c07::replay(&mut ctx, &input),
         "C08" => c08::replay(&mut ctx, &input),
+        "C09" => c09::replay(&mut ctx, &input),
         "C10" => c10::replay(&mut ctx, &input),
         "C11" => c11::replay(&mut ctx, &input),
         "C12" => c12::replay(&mut ctx, &input),
         "C13" => c13::replay(&mut ctx, &input),
         "C14" => c14::replay(&mut ctx, &input),
+        "C15" => c15::replay(&mut ctx, &input),
+        "C16" => c16::replay(&mut ctx, &input),
+        "C17" => c17::replay(&mut ctx, &input),
         "C18" => c18::replay(&mut ctx, &input, cfg.lane == "release"),
         "C19" => c19::replay(&mut ctx, &input),
         "C20" => c20::replay(&mut ctx, &input),
